@@ -63,15 +63,20 @@ fn param(rng: &mut Rng, size: u32) -> i64 {
 // one representative (or a few) per character class the code distinguishes
 const NARROW: &[u32] = &[0x61, 0x62, 0x63, 0x64, 0x65, 0x66, 0x67, 0x68, 0x41, 0x5a, 0x30, 0x7e, 0x20, 0x5f, 0x71, 0x78];
 const LATIN1: &[u32] = &[0xe9, 0xa0, 0xff, 0xb1, 0xe0];
-const ABOVE: &[u32] = &[0x436, 0x3b1, 0x2500, 0x263a, 0x2764];
-const WIDE: &[u32] = &[0x4e00, 0x65e5, 0x30b3];
+// (0x107, 0x11b, 0x29c, 0x279c, 0x4e07, 0x4e1b: low byte equal to BEL / ESC / ST - a truncating cast would confuse them with controls)
+const ABOVE: &[u32] = &[0x436, 0x3b1, 0x2500, 0x263a, 0x2764, 0x107, 0x11b, 0x29c, 0x279c];
+const WIDE: &[u32] = &[0x4e00, 0x65e5, 0x30b3, 0x4e07, 0x4e1b];
 const COMBINING: &[u32] = &[0x336, 0x20dd, 0xfe0f]; // U+FE0F: a cluster whose string width differs from its first character's
-const ZEROWIDTH: &[u32] = &[0x200b];
+// characters that are combining marks for the normalisation crate AND have a display width: spacing marks (Mc, width 1) and
+// the one wide one; they are drawn like any other printable character (`harness classes` lists every class)
+const SPACINGMARK: &[u32] = &[0x903, 0x93e, 0x16ff0];
+const ZEROWIDTH: &[u32] = &[0x200b, 0xad, 0x61c];
 const UNPRINT: &[u32] = &[0x00, 0x01, 0x7f, 0x85];
 
 fn text_char(rng: &mut Rng) -> u32 {
     match rng.below(20) {
-        0..=9 => *rng.pick(NARROW),
+        0..=8 => *rng.pick(NARROW),
+        9 => *rng.pick(SPACINGMARK),
         10 => *rng.pick(LATIN1),
         11 | 12 => *rng.pick(ABOVE),
         13..=15 => *rng.pick(WIDE),
@@ -95,6 +100,7 @@ fn plain(rng: &mut Rng, maxlen: u64) -> Vec<u32> {
             0 => *rng.pick(WIDE),
             1 => *rng.pick(ABOVE),
             2 => *rng.pick(COMBINING),
+            3 => *rng.pick(SPACINGMARK),
             _ => *rng.pick(NARROW),
         })
         .collect()
